@@ -58,6 +58,16 @@ R4  position <-> distance pairing: on every step the longitude / latitude /
     only some of the ways to a returned point is reported with that return).
     The first point is the start of the track.  The forward-geodesic leg
     coherence rule of the ground track (C15-R5) is part of this clause.
+    A helper object the flight context keeps (a cursor whose methods step /
+    look up a track held in one of its fields; its methods are opened) is
+    read through: its track field must be the context's ground track at every
+    construction, and the distance it keeps must equal the point's ground
+    distance whenever a step begins -- by induction: every way through the
+    stepping loop changes the two by the same amount, and on the way to the
+    loop (for the first phase: from the start of a flight iteration, the unit
+    the mass iteration repeats) the last value it is given is the point's
+    ground distance there.  A cursor never seated inside the flight iteration
+    steps a second pass from where the first one ended.
 R5  first point: the point the climb loop advances is initialised with the
     context's starting_mass / total_fuel_mass, the same fields fly() copies
     into the returned trajectory's metadata (through whatever helper); or it
@@ -65,7 +75,12 @@ R5  first point: the point the climb loop advances is initialised with the
     every returning path of fly() (helpers opened) each trajectory has them
     stored before any call receives it (the phases flown on it see the value)
     and not set to another value afterwards, and the trajectory returned is
-    one of these.
+    one of these.  The context fields still hold what the returned trajectory
+    was flown with when fly() reports them (forward dataflow over the CFGs of
+    fly() and the builder methods it calls: no store to self.starting_mass /
+    self.total_fuel_mass lies on a path between the last call of the method
+    that builds and flies a trajectory and the store into the trajectory's
+    metadata).
 R6  altitude schedule and refusals (scenario evaluation): the paths of the
     context constructor are evaluated on eleven explicit missions (origin /
     destination elevation / ceiling covering every branch of the documented
@@ -850,6 +865,153 @@ def _c(e):
     return canon(e)
 
 
+# ---- helper objects the builder keeps for the flight (a "cursor" along the ground track) ----
+# A refactoring may put the accumulated distance into a stateful helper object (`self.walker.advance(d)` instead of
+# `self.ground_track.step(pt.ground_distance, d)`).  The engine resolves methods of `self` only; the flight engine below
+# also resolves `self.<field>.<method>(..)` when <field> is a field of the builder's per-flight context (the builder
+# forwards attribute access to it) whose class is a repository class with a method that steps / looks up a track
+# (`<self.attr>.step(..)` / `.location(..)`), and opens such methods: the values then read
+# `<obj>.<track field>.step(_cur(<obj>.<distance field>), d)` and the object's own state changes are stores on the path.
+def _class_by_annotation(prog, m, ann):
+    if isinstance(ann, ast.Constant) and isinstance(ann.value, str):
+        try:
+            ann = ast.parse(ann.value, mode='eval').body
+        except SyntaxError:
+            return None
+    if ann is None:
+        return None
+    if isinstance(ann, ast.BinOp) and isinstance(ann.op, ast.BitOr):       # X | None
+        return _class_by_annotation(prog, m, ann.left) or _class_by_annotation(prog, m, ann.right)
+    try:
+        k = prog.resolve_class_expr(m, ann)
+    except Exception:
+        k = None
+    if k is not None:
+        return k
+    d = norm(ann)
+    if not re.fullmatch(r'[A-Za-z_][\w.]*', d) or d == 'None':
+        return None
+    cands = [c for c in prog.all_classes() if c.name == d or c.name.endswith('.' + d) or c.name.split('.')[-1] == d.split('.')[-1]]
+    exact = [c for c in cands if c.name == d]
+    cands = exact or cands
+    return cands[0] if len(cands) == 1 else None
+
+
+def _methods_of(k) -> dict:
+    """name -> FunctionInfo of the methods of class k (bases first, overridden by the class).  The loader does not list
+    the methods of a class nested in another class under that class (and qualifies them by the outer class): they are
+    found among the module's functions by their class and given the qualified name the engine expects of a method"""
+    from ..loader import FunctionInfo
+    out = {}
+    for c in reversed(k.mro()):
+        ms = dict(c.methods)
+        if not ms:
+            for q, fi in c.module.functions.items():
+                if fi.cls is c and '<locals>' not in q and '@' not in q and q.rsplit('.', 1)[0].split('.')[-1] == c.name:
+                    ms[fi.name] = fi if fi.qualname == f'{c.name}.{fi.name}' else FunctionInfo(f'{c.name}.{fi.name}', fi.node, fi.module, c)
+        out.update(ms)
+    return out
+
+
+def _steps_a_track(k) -> bool:
+    """some method of class k calls `.step(..)` / `.location(..)` on an attribute of self"""
+    for c in [k]:
+        for meth in _methods_of(k).values():
+            for n in walk_no_nested(meth.node):
+                if isinstance(n, ast.Call) and isinstance(n.func, ast.Attribute) and n.func.attr in ('step', 'location') \
+                        and isinstance(n.func.value, ast.Attribute) and isinstance(n.func.value.value, ast.Name) \
+                        and n.func.value.value.id == 'self':
+                    return True
+    return False
+
+
+def _context_class(prog, k):
+    """the per-flight context class of builder class k (its CONTEXT_CLASS), or None"""
+    for c in (k.mro() if k is not None else []):
+        v = c.class_assignments().get('CONTEXT_CLASS')
+        if v is not None and not (isinstance(v, ast.Constant) and v.value is None):
+            try:
+                r = prog.resolve_class_expr(c.module, v)
+            except Exception:
+                r = None
+            if r is not None:
+                return r
+    return None
+
+
+def _context_field_class(prog, ck, attr):
+    """class of the field `attr` of context class ck: its annotation, or what the context's methods store there"""
+    ann = ck.all_fields().get(attr)
+    if ann is not None:
+        owner = next((c for c in ck.mro() if attr in c.annotated_fields()), ck)
+        r = _class_by_annotation(prog, owner.module, ann)
+        if r is not None:
+            return r
+    from ..resolve import expr_class
+    for c in ck.mro():
+        for meth in c.methods.values():
+            for n in walk_no_nested(meth.node):
+                tgts = n.targets if isinstance(n, ast.Assign) else [n.target] if isinstance(n, ast.AnnAssign) else []
+                for t in tgts:
+                    if isinstance(t, ast.Attribute) and t.attr == attr and isinstance(t.value, ast.Name) and t.value.id == 'self':
+                        if isinstance(n, ast.AnnAssign):
+                            r = _class_by_annotation(prog, c.module, n.annotation)
+                            if r is not None:
+                                return r
+                        if n.value is not None:
+                            try:
+                                r = expr_class(prog, meth, n.value)
+                            except Exception:
+                                r = None
+                            if r is not None:
+                                return r
+    return None
+
+
+def _flight_engine(prog, track_cls):
+    from .c06 import Engine
+
+    class FlightEngine(Engine):
+        def __init__(self, *a, **kw):
+            super().__init__(*a, **kw)
+            self._resolve_cache = {}        # what this engine resolves other engines do not (and the reverse)
+            self.cursors: dict = {}         # class name -> ClassInfo of the helper classes whose methods were opened
+            base = self.inline
+            self.inline = lambda fi: base(fi) or (fi.cls is not None and fi.cls.name in self.cursors)
+
+        def _held_class(self, fr, e, depth=0):
+            if depth > 3 or fr.cls is None:
+                return None
+            if isinstance(e, ast.Name) and e.id not in ('self', 'cls'):
+                from ..astutil import single_def_value
+                v = single_def_value(fr.fi.node, e.id)
+                return self._held_class(fr, v, depth + 1) if v is not None else None
+            if isinstance(e, ast.Attribute):
+                b = e.value
+                if isinstance(b, ast.Attribute) and b.attr == 'ctx':
+                    b = b.value
+                if isinstance(b, ast.Name) and b.id == 'self' and fr.cls.find_method(e.attr) is None:
+                    ck = _context_class(self.prog, fr.cls)
+                    return _context_field_class(self.prog, ck, e.attr) if ck is not None else None
+            return None
+
+        def _resolve(self, fr, c):
+            r = super()._resolve(fr, c)
+            f = c.func
+            if r is None and isinstance(f, ast.Attribute) and not (isinstance(f.value, ast.Name) and f.value.id in ('self', 'cls')):
+                k = self._held_class(fr, f.value)
+                if k is not None and k is not track_cls and not track_cls.is_subclass_of(k.name) and _steps_a_track(k):
+                    m = _methods_of(k).get(f.attr)
+                    if m is not None:
+                        self.cursors[k.name] = k
+                        for c2 in k.mro():
+                            if c2 is not track_cls:
+                                self.cursors[c2.name] = c2
+                        return m
+            return r
+    return FlightEngine
+
+
 def _phase_runs(ctx):
     """{phase: (method, pre-loop events, [steps])} for the phases the builder flies"""
     from .c06 import Engine, Undecided
@@ -860,19 +1022,30 @@ def _phase_runs(ctx):
     lm = prog.module(LEG)
     lb = lm.cls('LegacyBuilder')
     phases = prog.cls('storage/phase.py', 'FlightPhase')
+    track_cls = prog.func('trajectories/ground_track.py', 'GroundTrack.step').cls
     out = {}
+    cursors: dict = {}          # helper classes (cursors along the track) whose methods the runs opened
+    entries: dict = {}          # phase -> per path with a stepping loop: the events before the loop, in order
     for ph in [k for k, v in phases.class_assignments().items() if k.isupper()]:
         meth = lb.find_method('fly_' + ph.lower())
         if meth is None:
             continue
-        eng = Engine(prog, inline=lambda fi: fi.file.endswith((LEG, BASE)))
+        eng = _flight_engine(prog, track_cls)(prog, inline=lambda fi: fi.file.endswith((LEG, BASE)))
         try:
             outs = eng.run(meth, self_cls=lb)
         except Undecided as ex:
             ctx.undecided('C02-R1', meth, meth.name, str(ex))
+        cursors.update(eng.cursors)
         pre, steps, seen = [], [], set()
         for kind, v, st in outs:
             cur = []
+            if any(e.loops for e in st.events):
+                head = []
+                for e in st.events:
+                    if e.loops:
+                        break
+                    head.append(e)
+                entries.setdefault(ph, []).append(head)
             for e in st.events:
                 if e.kind == 'endpath':
                     key = tuple(id(x.node) for x in cur) + tuple(_c(c) + str(p) for c, p in (cur[-1].pc if cur else ()))
@@ -892,6 +1065,7 @@ def _phase_runs(ctx):
     if missing:
         raise AnalysisError(f'anchor vanished: the builder has no fly_{missing[0].lower()}')
     prog.__dict__['_c02_phases'] = out
+    prog.__dict__['_c02_cursors'] = (cursors, entries, track_cls)
     return out
 
 
@@ -983,12 +1157,188 @@ def _positions_as_fields(e, fields):
     return T().visit(clone(e))
 
 
+# ---- R4 through a cursor object: which field holds the track, and the invariant distance == pt.ground_distance ----
+def _cursor_track_field(prog, k, attr, track_cls):
+    """True when field `attr` of helper class k is the ground track of the flight: the constructor binds it once to a
+    parameter, and every construction of k in the program passes for that parameter the context's ground track --
+    `<..>.ground_track`, or `self` inside a method of the track class that is only ever called on `<..>.ground_track`.
+    None when that cannot be told."""
+    meths = _methods_of(k)
+    init = meths.get('__init__')
+    if init is None:
+        return None
+    stores = [(m, n) for m in meths.values() for n in walk_no_nested(m.node) if isinstance(n, (ast.Assign, ast.AnnAssign, ast.AugAssign))
+              for t in (n.targets if isinstance(n, ast.Assign) else [n.target])
+              if isinstance(t, ast.Attribute) and t.attr == attr and isinstance(t.value, ast.Name) and t.value.id == 'self']
+    if len(stores) != 1 or stores[0][0].node is not init.node or not isinstance(stores[0][1], (ast.Assign, ast.AnnAssign)) \
+            or not isinstance(stores[0][1].value, ast.Name) or stores[0][1].value.id not in init.params[1:]:
+        return None
+    par = stores[0][1].value.id
+    pos = init.params.index(par) - 1
+    short = k.name.split('.')[-1]
+    sites = []
+    for fi in prog.all_functions():
+        for n in walk_no_nested(fi.node):
+            if isinstance(n, ast.Call) and (norm(n.func) == short or norm(n.func).endswith('.' + short)) \
+                    and _class_by_annotation(prog, fi.module, n.func) is k:
+                a = n.args[pos] if len(n.args) > pos and not any(isinstance(x, ast.Starred) for x in n.args[:pos + 1]) \
+                    else next((kw.value for kw in n.keywords if kw.arg == par), None)
+                sites.append((fi, a))
+    if not sites:
+        return None
+    for fi, a in sites:
+        if a is None:
+            return None
+        if norm(a).split('.')[-1] == 'ground_track':
+            continue
+        if isinstance(a, ast.Name) and a.id == 'self' and fi.cls is not None and (fi.cls is track_cls or fi.cls.is_subclass_of(track_cls.name)):
+            calls = [n for f2 in prog.all_functions() for n in walk_no_nested(f2.node)
+                     if isinstance(n, ast.Call) and isinstance(n.func, ast.Attribute) and n.func.attr == fi.name]
+            if calls and all(norm(n.func.value).split('.')[-1] == 'ground_track' for n in calls):
+                continue
+        return None
+    return True
+
+
+def _cursor_invariant(ctx, ph, first_phase, steps, ctext, ptext):
+    """(ok, why) for: whenever a step of phase `ph` begins, the distance a cursor object keeps (`ctext`, e.g.
+    self.walker.distance) is the ground distance of the point the phase advances (`ptext`.ground_distance).  By
+    induction: every way through the stepping loop changes the two by the same amount (or leaves the cursor at the
+    distance the point is left at), and on every path to the loop the last value given to the cursor before the loop is
+    the point's ground distance there.  For the first phase the seat may also be taken on the way from the start of a
+    flight iteration (the unit the mass iteration repeats) to the phases.  ok None = cannot tell."""
+    from .c06 import canon, uncur, _nf, Undecided
+    prog = ctx.prog
+    cursors, entries, track_cls = prog.__dict__['_c02_cursors']
+    gtext = f'{ptext}.ground_distance'
+
+    def change(stp, text):
+        hit = stp.final.get(text)
+        if hit is None:
+            return 'same', None
+        d = _delta(hit[1], text)
+        if d is None:
+            return 'abs', _nf(hit[1], {})
+        return 'rel', _amount_nf(d)
+    for stp in steps:
+        kc, vc = change(stp, ctext)
+        kg, vg = change(stp, gtext)
+        line = stp.final[ctext][2].line if ctext in stp.final else (stp.final[gtext][2].line if gtext in stp.final else 0)
+        if kc == 'same' and kg == 'same':
+            continue
+        if kc == 'abs':
+            end = _nf(stp.final[gtext][1], {}) if kg != 'same' else _nf(ast.parse(f'_cur({gtext})', mode='eval').body, {})
+            if vc is None or end is None:
+                return None, f'cannot normalise the distance `{ctext}` is left at'
+            if poly_equal(vc, end):
+                continue
+            return False, (f'a step leaves `{ctext}` at `{canon(uncur(stp.final[ctext][1]))[:50]}`, which is not the ground distance '
+                           f'the point is left at: the next step is taken from another place than the point\'s accumulated ground distance')
+        if kc == 'same' or kg == 'same' or kg == 'abs':
+            return False, (f'`{ctext}` (the distance the track is stepped from) and the point\'s ground_distance are not advanced together '
+                           f'on every step (line {line}): the next step is taken from another place than the point\'s accumulated ground distance')
+        if vc is None or vg is None:
+            return None, f'cannot normalise the amounts added to `{ctext}` and to ground_distance'
+        if not poly_equal(vc, vg):
+            return False, (f'the distance added to `{ctext}` (where the track is stepped from) is not the distance added to '
+                           f'pt.ground_distance on the same step')
+    # the seat on entry
+    heads = entries.get(ph) or []
+    if not heads:
+        return None, 'no path to the stepping loop found'
+    unseated = False
+    for head in heads:
+        cv = gv = None
+        for e in head:
+            if e.kind == 'store' and canon(e.target) == ctext:
+                cv = e.value
+            elif e.kind == 'store' and canon(e.target) == gtext:
+                gv = e.value
+        if gv is None:
+            gv = ast.parse(gtext, mode='eval').body
+        if cv is None:
+            unseated = True
+            continue
+        a, b = _nf(cv, {}), _nf(gv, {})
+        if not (canon(cv) == canon(gv) or (a is not None and b is not None and poly_equal(a, b))):
+            return False, (f'before the {ph.lower()} loop `{ctext}` is set to `{canon(cv)[:50]}` while the point it advances has ground distance '
+                           f'`{canon(gv)[:50]}`: the steps are taken from another place than the point\'s accumulated ground distance')
+    if not unseated:
+        return True, ''
+    if not first_phase:
+        return None, (f'`{ctext}` is not set between the start of {ph.lower()} and its stepping loop: whether the previous phase left it at the '
+                      'last stored point is not decided')
+    # the first phase: a seat taken between the start of a flight iteration and the phases counts
+    lb = prog.module(LEG).cls('LegacyBuilder')
+    it = lb.find_method('_fly_iteration')
+    seats = []
+    if it is not None:
+        eng = _flight_engine(prog, track_cls)(prog, inline=lambda fi: fi.file.endswith((LEG, BASE)) and not fi.name.startswith('fly_'))
+        try:
+            for kind, v, st in eng.run(it, self_cls=lb):
+                seats += [e for e in st.events if e.kind == 'store' and canon(uncur(e.target)) == ctext]
+        except Undecided as ex:
+            return None, str(ex)
+    if seats:
+        ok = all(isinstance(e.value, ast.Constant) and e.value.value == 0 for e in seats)
+        return (True, '') if ok else (None, f'`{ctext}` is set by the flight iteration to a value that is not the start of the track')
+    # set somewhere else on the way (per pass of the mass iteration, per flight)?  then the rule cannot tell
+    attr = ctext.rsplit('.', 1)[1]
+    setters = set()
+    for k in cursors.values():
+        for nme, m in _methods_of(k).items():
+            if nme != '__init__' and any(isinstance(t, ast.Attribute) and t.attr == attr and isinstance(t.ctx, ast.Store)
+                                         for n in walk_no_nested(m.node) for t in ast.walk(n)):
+                setters.add(nme)
+    runs = prog.__dict__.get('_c02_phases') or {}
+    covered = {id(it.node)} if it is not None else set()
+    covered |= {id(e.fi.node) for hs in entries.values() for h in hs for e in h}
+    covered |= {id(e.fi.node) for _, _, sts in runs.values() for s in sts for e in s.events}
+    obj = ctext.rsplit('.', 2)[-2]
+    for rel in (LEG, BASE):
+        for fi in prog.module(rel).functions.values():
+            if id(fi.node) in covered:
+                continue
+            for n in walk_no_nested(fi.node):
+                if (isinstance(n, ast.Call) and isinstance(n.func, ast.Attribute) and n.func.attr in setters
+                        and norm(n.func.value).split('.')[-1] == obj) \
+                        or (isinstance(n, ast.Attribute) and isinstance(n.ctx, ast.Store) and n.attr == attr
+                            and norm(n.value).split('.')[-1] == obj):
+                    return None, (f'`{ctext}` is set in {fi.qualname}, outside the flight iteration: whether every pass of the mass '
+                                  'iteration starts from 0 is not decided')
+    return False, (f'the track is stepped from `{ctext}`, a distance kept by a helper object that lives as long as the flight context, and nothing '
+                   f'between the start of a flight iteration and the {ph.lower()} loop puts it at the first point\'s ground distance (0): a second pass '
+                   f'of the mass iteration steps the {ph.lower()} from where the previous pass left off, so the positions are not the track points at '
+                   f'the recorded ground distance')
+
+
+def _reseat(x, kept, obj, ptext):
+    """the track call x made through a cursor object `obj`, read as the call on the ground track itself: the receiver
+    is self.ground_track and every kept distance `_cur(obj.f)` in `kept` is `_cur(<point>.ground_distance)` (what
+    _cursor_invariant established); also returns the same reading for any other value of the step"""
+    from .c06 import canon, clone, is_sym
+
+    class T(ast.NodeTransformer):
+        def visit_Call(self, n):
+            if is_sym(n, '_cur') and canon(n.args[0]) in kept:
+                return ast.parse(f'_cur({ptext}.ground_distance)', mode='eval').body
+            return self.generic_visit(n)
+    y = clone(x)
+    y.args = [T().visit(a) for a in y.args]
+    for kw in y.keywords:
+        kw.value = T().visit(kw.value)
+    y.func = ast.Attribute(value=ast.parse('self.ground_track', mode='eval').body, attr=y.func.attr, ctx=ast.Load())
+    return y, (lambda e: T().visit(clone(e)))
+
+
 def rule_flight(ctx):
     from .c06 import canon, ceval, is_sym, uncur, _nf
     prog = ctx.prog
     runs = _phase_runs(ctx)
     pfields = _track_point_fields(prog)
     n_pairs = n_pos = n_clamp = 0
+    cursors, _entries, track_cls = prog.__dict__['_c02_cursors']
+    inv: dict = {}
     for ph, (meth, pre, steps) in runs.items():
         if not steps:
             ctx.undecided('C02-R1', meth, ph, 'no stepping loop found in the phase')
@@ -1050,6 +1400,34 @@ def rule_flight(ctx):
                         chain.append(x.attr)
                         x = x.value
                     chain.reverse()
+                    resub = lambda e_: e_
+                    # a point obtained through a cursor object (its methods opened by the engine): the object's track
+                    # field is the ground track and its distance field is the point's ground distance, when that holds
+                    if isinstance(x, ast.Call) and isinstance(x.func, ast.Attribute) and x.func.attr in ('step', 'location') \
+                            and isinstance(x.func.value, ast.Attribute) and not canon(x.func.value).endswith('ground_track') and cursors:
+                        obj, tf = x.func.value.value, x.func.value.attr
+                        is_track = next((r for r in (_cursor_track_field(prog, k, tf, track_cls) for k in cursors.values()
+                                                     if '__init__' in _methods_of(k)) if r), None)
+                        if not is_track:
+                            ctx.undecided('C02-R4', e.fi, canon(uncur(x))[:80],
+                                          f'cannot tell that `{canon(x.func.value)}` is the ground track of the flight')
+                        kept = sorted({canon(n.args[0]) for a_ in list(x.args) + [kw.value for kw in x.keywords] for n in ast.walk(a_)
+                                       if is_sym(n, '_cur') and isinstance(n.args[0], ast.Attribute) and canon(n.args[0].value) == canon(obj)})
+                        bad = False
+                        for ctext in kept:
+                            key = (ph, ctext, canon(t.value))
+                            if key not in inv:
+                                inv[key] = _cursor_invariant(ctx, ph, ph == list(runs)[0], steps, ctext, canon(t.value))
+                            okc, whyc = inv[key]
+                            if okc is None:
+                                ctx.undecided('C02-R4', e.fi, canon(uncur(x))[:80], whyc)
+                            if not okc:
+                                ctx.ob('C02-R4', e.fi, f'{ph.lower()} step: pt.{attr} = {canon(uncur(x))[:70]}', False, whyc, line=e.line)
+                                bad = True
+                                break
+                        if bad:
+                            continue
+                        x, resub = _reseat(x, kept, canon(obj), canon(t.value))
                     step_ok = isinstance(x, ast.Call) and isinstance(x.func, ast.Attribute) and x.func.attr == 'step' \
                         and canon(x.func.value).endswith('ground_track') and len(x.args) + len(x.keywords) == 2
                     look_ok = isinstance(x, ast.Call) and isinstance(x.func, ast.Attribute) and x.func.attr == 'location' \
@@ -1059,13 +1437,13 @@ def rule_flight(ctx):
                         # refuses a negative advance unless the path itself does
                         a = x.args[0] if x.args else x.keywords[0].value
                         mine = [g for g in gd if canon(g[0].value) == canon(t.value)]
-                        final = _nf(mine[0][1], {}) if mine else None
+                        final = _nf(resub(mine[0][1]), {}) if mine else None
                         reached = _nf(a, {})
                         if not mine or final is None or reached is None or not poly_equal(final, reached):
                             ctx.ob('C02-R4', e.fi, f'{ph.lower()} step: pt.{attr} = ground_track.location({canon(uncur(a))[:40]}).{".".join(want)}', False,
                                    'the point is looked up at a distance that is not the ground distance the step arrives at', line=e.line)
                             continue
-                        adv = _delta(mine[0][1], canon(mine[0][0]))
+                        adv = _delta(resub(mine[0][1]), canon(mine[0][0]))
                         okn, whyn = _non_negative([(-s, y) for s, y in adv] if adv else [], e, ceval, canon, is_sym) if adv and len(adv) == 1 \
                             else (None, 'advance is not a single amount')
                         if okn is None:
@@ -1092,7 +1470,7 @@ def rule_flight(ctx):
                         ok, why = False, 'the point is moved along the track but its ground distance is not advanced on this step'
                     else:
                         reached = _nf(ast.BinOp(left=a0, op=ast.Add(), right=a1), {})
-                        final = _nf(mine[0][1], {})
+                        final = _nf(resub(mine[0][1]), {})
                         ok = reached is not None and final is not None and poly_equal(reached, final)
                         start_ok = canon(uncur(a0)) == cur_gd
                         if ok and not start_ok:
@@ -1266,6 +1644,16 @@ def rule_flight(ctx):
                    'reported metadata is the context value' if ok else
                    'reported starting mass / fuel load differs from what the first point carries', line=(e.line if e is not None else fly.node.lineno))
 
+    # ---- R5: ... and the reported fields still hold what the returned trajectory was flown with
+    for sfi, part, attr, dirty in _masses_after_flight(prog, fly, runs['CLIMB'][0].cls or fly.cls):
+        if from_traj.get(attr):
+            continue
+        ctx.ob('C02-R5', sfi, f'traj.{attr} is reported as it was when the returned trajectory was flown', not dirty,
+               'no write to the context field between the flight of the returned trajectory and the report' if not dirty else
+               (f'self.{attr} is changed (line {int(dirty)}) after the trajectory that is returned has been flown and before it is reported '
+                f'in traj.{attr}: the first point of the returned trajectory carries the value before that change, not the reported one'),
+               line=part.lineno)
+
     # ---- R8: the altitude schedule of each phase
     rules_seen = {}
     for ph, (meth, pre, steps) in runs.items():
@@ -1339,6 +1727,86 @@ def rule_flight(ctx):
         ok = marks == {f'FlightPhase.{ph}'}
         ctx.ob('C02-R8', meth, f'{ph.lower()} points are marked {sorted(marks)}', ok, 'own phase' if ok else 'points are counted under another phase',
                nontrivial=False)
+
+
+# ---- R5: the masses reported are the ones the returned trajectory was flown with ----
+def _masses_after_flight(prog, fly, builder_cls, fields=('starting_mass', 'total_fuel_mass')):
+    """[(stamp statement, field, line of the offending write)] over fly() and the builder methods it calls: forward
+    may-dataflow on the CFGs.  The state is 0 while the context's `fields` are what the last flown trajectory started
+    with, else the line of a write to one of them since; a call of the method that builds and flies a trajectory
+    (constructs Trajectory) makes it 0, a call of another builder method continues in that method's CFG, a store to
+    self.<field> / self.ctx.<field> makes it that line.  A *stamp* is a store `<trajectory>.<field> = self.<field>`;
+    it must be reached with state 0 on every path."""
+    memo: dict = {}
+    stamps: list = []
+
+    def is_ctx_field(t):
+        return isinstance(t, ast.Attribute) and t.attr in fields and norm(t.value) in ('self', 'self.ctx')
+
+    def parts(stmt):
+        if isinstance(stmt, (ast.If, ast.While)):
+            return [stmt.test]
+        if isinstance(stmt, (ast.For, ast.AsyncFor)):
+            return [stmt.iter]
+        if isinstance(stmt, (ast.With, ast.AsyncWith)):
+            return [i.context_expr for i in stmt.items]
+        if isinstance(stmt, ast.Match):
+            return [stmt.subject]
+        if isinstance(stmt, (ast.Try, ast.FunctionDef, ast.AsyncFunctionDef, ast.ClassDef)) or not isinstance(stmt, ast.AST):
+            return []
+        return [stmt]
+
+    def flies(fi):
+        return any(isinstance(n, ast.Call) and norm(n.func).split('.')[-1] == 'Trajectory' for n in walk_no_nested(fi.node))
+
+    def flow(fi, init, stack=()):
+        key = (fi.qualname, init)
+        if key in memo:
+            return memo[key]
+        if fi.qualname in stack or len(stack) > 6:
+            return init
+        memo[key] = init
+        g = CFG(fi.node)
+
+        def transfer(node, st):
+            for part in parts(node.stmt):
+                calls = sorted((n for n in walk_no_nested(part) if isinstance(n, ast.Call)),
+                               key=lambda n: (getattr(n, 'end_lineno', 0), getattr(n, 'end_col_offset', 0)))
+                for c in calls:
+                    f = c.func
+                    if isinstance(f, ast.Attribute) and isinstance(f.value, ast.Name) and f.value.id == 'self':
+                        m = builder_cls.find_method(f.attr)
+                        if m is None or m.node is fi.node:
+                            continue
+                        st = 0 if flies(m) else flow(m, st, stack + (fi.qualname,))
+                if isinstance(part, (ast.Assign, ast.AugAssign, ast.AnnAssign)) and not (isinstance(part, ast.AnnAssign) and part.value is None):
+                    tgts = part.targets if isinstance(part, ast.Assign) else [part.target]
+                    flat = [x for t in tgts for x in (t.elts if isinstance(t, (ast.Tuple, ast.List)) else [t])]
+                    for t in flat:
+                        if is_ctx_field(t):
+                            st = part.lineno
+                        elif isinstance(t, ast.Attribute) and t.attr in fields and isinstance(part, ast.Assign) \
+                                and isinstance(part.value, ast.Attribute) and is_ctx_field(part.value) and part.value.attr == t.attr:
+                            stamps.append((fi, part, t.attr, st))
+            return st
+        ins, _ = g.forward(init, transfer, lambda a, b: max(a, b))
+        # the stamps were recorded while iterating to the fixpoint: keep the final in-state of each
+        final = {}
+        for i, node in enumerate(g.nodes):
+            if node.id in ins and isinstance(node.stmt, ast.Assign) and node.kind == 'stmt':
+                final[id(node.stmt)] = max(final.get(id(node.stmt), 0), ins[node.id])
+        for j, (f2, part, attr, st) in enumerate(stamps):
+            if f2 is fi and id(part) in final:
+                stamps[j] = (f2, part, attr, final[id(part)])
+        memo[key] = ins.get(g.exit, init)
+        return memo[key]
+    flow(fly, 0)
+    seen, out = set(), []
+    for fi, part, attr, st in stamps:
+        if (id(part), attr) not in seen:
+            seen.add((id(part), attr))
+            out.append((fi, part, attr, max(s for f, p, a, s in stamps if p is part and a == attr)))
+    return out
 
 
 def _own_metadata_discipline(st, v, attr):
